@@ -675,3 +675,46 @@ func (g *Gen) tagColliders(p *prng, name string, n int) []string {
 	}
 	return nil
 }
+
+
+// versColliders returns VERS range texts (numeric variations of corpus ranges)
+// that share a bucket under a seeded hash function at a 4096-entry mask.
+func (g *Gen) versColliders(p *prng, n int) []string {
+	h := hashFns[p.n(len(hashFns))]
+	const mask = 4096 - 1
+	buckets := map[uint64][]string{}
+	seen := map[string]bool{}
+	var order []uint64
+	add := func(s string) {
+		if seen[s] || len(s) > 100 {
+			return
+		}
+		seen[s] = true
+		b := h(s) & mask
+		if len(buckets[b]) == 0 {
+			order = append(order, b)
+		}
+		buckets[b] = append(buckets[b], s)
+	}
+	for i := 0; i < 1200; i++ {
+		sch := g.schemes[p.n(len(g.schemes))]
+		if _, ok := schemeEco[sch]; !ok {
+			continue
+		}
+		s := pickS(p, g.versBy[sch])
+		add(s)
+		if nd := len(digitRun.FindAllString(s, -1)); nd > 0 {
+			add(replaceNth(digitRun, s, p.n(nd), strconv.Itoa(p.n(400))))
+		}
+	}
+	for _, b := range order {
+		if len(buckets[b]) >= 2 {
+			out := buckets[b]
+			if len(out) > n {
+				out = out[:n]
+			}
+			return out
+		}
+	}
+	return nil
+}
